@@ -200,8 +200,30 @@ impl Duration {
     pub fn as_secs(&self) -> (r: u64) ensures r == self.ms / 1000 { self.ms / 1000 }
     pub fn as_millis(&self) -> (r: u128) ensures r == self.ms { self.ms as u128 }
 }
+// tokio::time::interval: ticks at now + first_delay, then every period
+pub struct Interval { pub ghost first_delay_ms: int, pub ghost period_ms: int, pub ghost delay_on_miss: bool }
+pub enum MissedTickBehavior { Burst, Delay, Skip }
+impl Interval {
+    #[verifier::external_body]
+    pub fn set_missed_tick_behavior(&mut self, b: MissedTickBehavior)
+        ensures final(self).first_delay_ms == old(self).first_delay_ms, final(self).period_ms == old(self).period_ms, final(self).delay_on_miss == (b is Delay)
+    { }
+    #[verifier::external_body] pub fn tick(&mut self) ensures *final(self) == *old(self) { }
+}
+// how far in the future an instant lies when it is handed to interval_at (the clock is not modelled: unknown)
+pub uninterp spec fn vx_delay_until(start: Instant) -> int;
+impl std::ops::Add<Duration> for Instant {
+    type Output = Instant;
+    #[verifier::external_body] fn add(self, d: Duration) -> (r: Instant) { unimplemented!() }
+}
 pub mod time {
     use super::*;
+    pub use super::Interval; pub use super::MissedTickBehavior;
+    // interval(p): the first tick completes immediately
+    #[verifier::external_body]
+    pub fn interval(period: Duration) -> (r: Interval) ensures r.first_delay_ms == 0, r.period_ms == period.ms, !r.delay_on_miss { unimplemented!() }
+    #[verifier::external_body]
+    pub fn interval_at(start: Instant, period: Duration) -> (r: Interval) ensures r.first_delay_ms == vx_delay_until(start), r.period_ms == period.ms, !r.delay_on_miss { unimplemented!() }
     // time::timeout(d, fut): after async erasure the awaited operation has run to completion; the timer may still fire
     #[verifier::external_body]
     pub fn timeout<T>(d: Duration, x: T, fx: &mut Ghost<Seq<Effect>>) -> (r: std::result::Result<T, Elapsed>)
